@@ -9,6 +9,7 @@
 import Mathlib.Tactic.Ring
 import Mathlib.Tactic.LinearCombination
 import Mathlib.Tactic.FieldSimp
+import Mathlib.Tactic.IntervalCases
 import Plonk.Proofs.Frame
 
 namespace Plonk
@@ -675,6 +676,439 @@ theorem componentBoolean_honest_iff (a : Nat) (c : Composer) (hwf : WF c) :
   have e1 : toF (c.val a) = 1 ↔ c.val a = 1 := by
     rw [← toF_one]; exact toF_inj_of_lt (hwf.val_lt a) h1
   exact or_congr e0 e1
+
+theorem gateAdd_apply (s : Constraint) (c : Composer) :
+    gateAdd s c = (c.wit.size, ((gateAdd s).run c).2) := by
+  have := gateAdd_run s c
+  rw [gateAdd_snd]; exact this
+
+theorem gateAdd_wit_size (s : Constraint) (c : Composer) :
+    ((gateAdd s).run c).2.wit.size = c.wit.size + 1 := (gateAdd_appends s c).wit
+
+theorem gateAdd_gates_size (s : Constraint) (c : Composer) :
+    ((gateAdd s).run c).2.gates.size = c.gates.size + 1 := (gateAdd_appends s c).gates
+
+/-! ### `append_constant` / `append_public` -/
+
+theorem appendConstant_run (v : Nat) (c : Composer) :
+    (appendConstant v).run c =
+      (c.wit.size, ((assertEqualConstant c.wit.size v none).run ((appendWitness v).run c).2).2) :=
+  rfl
+
+theorem appendConstant_fst (v : Nat) (c : Composer) : ((appendConstant v).run c).1 = c.wit.size :=
+  rfl
+
+theorem appendConstant_snd (v : Nat) (c : Composer) :
+    ((appendConstant v).run c).2 =
+      ((assertEqualConstant c.wit.size v none).run ((appendWitness v).run c).2).2 := rfl
+
+theorem appendConstant_appends (v : Nat) (c : Composer) :
+    Appends c ((appendConstant v).run c).2 1 1 := by
+  rw [appendConstant_snd]
+  exact (appendWitness_appends v c).trans (assertEqualConstant_appends _ _ _ _)
+
+theorem appendConstant_extends (v : Nat) (c : Composer) :
+    Extends c ((appendConstant v).run c).2 := (appendConstant_appends v c).ext
+
+theorem appendConstant_wf (v : Nat) (c : Composer) (h : WF c) :
+    WF ((appendConstant v).run c).2 := by
+  rw [appendConstant_snd]; exact assertEqualConstant_wf _ _ _ _ (appendWitness_wf v c h)
+
+/-- `append_constant v`: the row holds iff the returned witness carries `v` -/
+theorem appendConstant_rows_iff (v : Nat) (c : Composer) (h : WF c) (w : Nat → Nat) :
+    ((appendConstant v).run c).2.rowsHoldW w c.gates.size ((appendConstant v).run c).2.gates.size ↔
+      toF (w c.wit.size) = toF v := by
+  rw [appendConstant_snd]
+  have := assertEqualConstant_rows_iff c.wit.size v none _ (appendWitness_wf v c h) w
+  simp only [pubF, add_zero] at this
+  exact this
+
+theorem appendConstant_val (v : Nat) (c : Composer) :
+    ((appendConstant v).run c).2.val c.wit.size = v % R := appendWitness_val v c
+
+theorem appendConstant_honest_ext (v : Nat) (c : Composer) (hwf : WF c) {c'' : Composer}
+    (hext : Extends ((appendConstant v).run c).2 c'') :
+    ((appendConstant v).run c).2.rowsHoldW c''.val c.gates.size
+      ((appendConstant v).run c).2.gates.size := by
+  rw [appendConstant_rows_iff v c hwf,
+    hext.val_eq (by rw [(appendConstant_appends v c).wit]; omega), appendConstant_val, toF_mod]
+
+theorem appendConstant_honest (v : Nat) (c : Composer) (hwf : WF c) :
+    ((appendConstant v).run c).2.rowsHoldW ((appendConstant v).run c).2.val c.gates.size
+      ((appendConstant v).run c).2.gates.size := appendConstant_honest_ext v c hwf (Extends.refl _)
+
+theorem appendPublic_run (v : Nat) (c : Composer) :
+    (appendPublic v).run c =
+      (c.wit.size, ((appendGate { ql := R - 1, a := c.wit.size, pi := v % R, hasPi := true }).run
+        ((appendWitness v).run c).2).2) := rfl
+
+theorem appendPublic_fst (v : Nat) (c : Composer) : ((appendPublic v).run c).1 = c.wit.size := rfl
+
+theorem appendPublic_snd (v : Nat) (c : Composer) :
+    ((appendPublic v).run c).2 =
+      ((appendGate { ql := R - 1, a := c.wit.size, pi := v % R, hasPi := true }).run
+        ((appendWitness v).run c).2).2 := rfl
+
+theorem appendPublic_appends (v : Nat) (c : Composer) :
+    Appends c ((appendPublic v).run c).2 1 1 := by
+  rw [appendPublic_snd]
+  exact (appendWitness_appends v c).trans (appendGate_appends _ _)
+
+theorem appendPublic_extends (v : Nat) (c : Composer) :
+    Extends c ((appendPublic v).run c).2 := (appendPublic_appends v c).ext
+
+theorem appendPublic_wf (v : Nat) (c : Composer) (h : WF c) :
+    WF ((appendPublic v).run c).2 := by
+  rw [appendPublic_snd]; exact appendGate_wf _ _ (appendWitness_wf v c h)
+
+/-- the public input recorded for the appended row is `v` (reduced) -/
+theorem appendPublic_piAt (v : Nat) (c : Composer) :
+    ((appendPublic v).run c).2.piAt c.gates.size = v % R := by
+  rw [appendPublic_snd]
+  exact piAt_mk_push_self _ _ _ _ _
+
+/-- `append_public v`: the row holds iff the returned witness equals the public input `v` -/
+theorem appendPublic_rows_iff (v : Nat) (c : Composer) (h : WF c) (w : Nat → Nat) :
+    ((appendPublic v).run c).2.rowsHoldW w c.gates.size ((appendPublic v).run c).2.gates.size ↔
+      toF (w c.wit.size) = toF v := by
+  rw [appendPublic_snd]
+  have := appendGate_rows_iff { ql := R - 1, a := c.wit.size, pi := v % R, hasPi := true } _
+    (appendWitness_wf v c h) w
+  refine Iff.trans this ?_
+  simp only [Constraint.arithRel, Constraint.piF, toF_zero, toF_mod, toF_R_sub_one]
+  constructor
+  · intro h; simp at h; linear_combination -h
+  · intro h; simp; linear_combination -h
+
+theorem appendPublic_val (v : Nat) (c : Composer) :
+    ((appendPublic v).run c).2.val c.wit.size = v % R := appendWitness_val v c
+
+theorem appendPublic_honest_ext (v : Nat) (c : Composer) (hwf : WF c) {c'' : Composer}
+    (hext : Extends ((appendPublic v).run c).2 c'') :
+    ((appendPublic v).run c).2.rowsHoldW c''.val c.gates.size
+      ((appendPublic v).run c).2.gates.size := by
+  rw [appendPublic_rows_iff v c hwf,
+    hext.val_eq (by rw [(appendPublic_appends v c).wit]; omega), appendPublic_val, toF_mod]
+
+theorem appendPublic_honest (v : Nat) (c : Composer) (hwf : WF c) :
+    ((appendPublic v).run c).2.rowsHoldW ((appendPublic v).run c).2.val c.gates.size
+      ((appendPublic v).run c).2.gates.size := appendPublic_honest_ext v c hwf (Extends.refl _)
+
+/-! ### `component_select_zero` : `bit · value` -/
+
+theorem componentSelectZero_fst (bit value : Nat) (c : Composer) :
+    ((componentSelectZero bit value).run c).1 = c.wit.size := gateAdd_fst _ c
+
+theorem componentSelectZero_appends (bit value : Nat) (c : Composer) :
+    Appends c ((componentSelectZero bit value).run c).2 1 1 := gateAdd_appends _ c
+
+theorem componentSelectZero_extends (bit value : Nat) (c : Composer) :
+    Extends c ((componentSelectZero bit value).run c).2 := gateAdd_extends _ c
+
+theorem componentSelectZero_wf (bit value : Nat) (c : Composer) (h : WF c) :
+    WF ((componentSelectZero bit value).run c).2 := gateAdd_wf _ c h
+
+theorem componentSelectZero_rows_iff (bit value : Nat) (c : Composer) (h : WF c) (w : Nat → Nat) :
+    ((componentSelectZero bit value).run c).2.rowsHoldW w c.gates.size
+        ((componentSelectZero bit value).run c).2.gates.size ↔
+      toF (w c.wit.size) = toF (w bit) * toF (w value) := by
+  unfold componentSelectZero gateMul
+  rw [gateAdd_rows_iff _ c h]
+  simp [Constraint.evalF, Constraint.piF]
+
+theorem componentSelectZero_honest_ext (bit value : Nat) (c : Composer) (hwf : WF c)
+    (hb : bit < c.wit.size) (hv : value < c.wit.size) {c'' : Composer}
+    (hext : Extends ((componentSelectZero bit value).run c).2 c'') :
+    ((componentSelectZero bit value).run c).2.rowsHoldW c''.val c.gates.size
+      ((componentSelectZero bit value).run c).2.gates.size :=
+  gateAdd_honest_ext { qm := 1, a := bit, b := value } c hwf (fun _ => rfl) hb hv
+    (Nat.lt_of_le_of_lt (Nat.zero_le _) hb) hext
+
+theorem componentSelectZero_honest (bit value : Nat) (c : Composer) (hwf : WF c)
+    (hb : bit < c.wit.size) (hv : value < c.wit.size) :
+    ((componentSelectZero bit value).run c).2.rowsHoldW
+      ((componentSelectZero bit value).run c).2.val c.gates.size
+      ((componentSelectZero bit value).run c).2.gates.size :=
+  componentSelectZero_honest_ext bit value c hwf hb hv (Extends.refl _)
+
+theorem componentSelectZero_val (bit value : Nat) (c : Composer) :
+    toF (((componentSelectZero bit value).run c).2.val c.wit.size) =
+      toF (c.val bit) * toF (c.val value) := by
+  unfold componentSelectZero gateMul
+  rw [gateAdd_val]
+  simp [Constraint.evalF]
+
+/-! ### `component_select_one` : `1 − bit + bit · value` -/
+
+/-- the constraint appended by `component_select_one` -/
+def selectOneC (bit value o : Nat) : Constraint :=
+  { qm := 1, ql := R - 1, qo := R - 1, qc := 1, a := bit, b := value, c := o }
+
+theorem componentSelectOne_fst (bit value : Nat) (c : Composer) :
+    ((componentSelectOne bit value).run c).1 = c.wit.size := rfl
+
+theorem componentSelectOne_snd (bit value : Nat) (c : Composer) :
+    ((componentSelectOne bit value).run c).2 =
+      ((appendGate (selectOneC bit value c.wit.size)).run
+        ((appendWitness (fadd (fsub 1 (c.val bit)) (fmul (c.val bit) (c.val value)))).run c).2).2 :=
+  rfl
+
+theorem componentSelectOne_appends (bit value : Nat) (c : Composer) :
+    Appends c ((componentSelectOne bit value).run c).2 1 1 := by
+  rw [componentSelectOne_snd]
+  exact (appendWitness_appends _ c).trans (appendGate_appends _ _)
+
+theorem componentSelectOne_extends (bit value : Nat) (c : Composer) :
+    Extends c ((componentSelectOne bit value).run c).2 := (componentSelectOne_appends bit value c).ext
+
+theorem componentSelectOne_wf (bit value : Nat) (c : Composer) (h : WF c) :
+    WF ((componentSelectOne bit value).run c).2 := by
+  rw [componentSelectOne_snd]; exact appendGate_wf _ _ (appendWitness_wf _ c h)
+
+theorem componentSelectOne_rows_iff (bit value : Nat) (c : Composer) (h : WF c) (w : Nat → Nat) :
+    ((componentSelectOne bit value).run c).2.rowsHoldW w c.gates.size
+        ((componentSelectOne bit value).run c).2.gates.size ↔
+      toF (w c.wit.size) = 1 - toF (w bit) + toF (w bit) * toF (w value) := by
+  rw [componentSelectOne_snd]
+  refine Iff.trans (appendGate_rows_iff (selectOneC bit value c.wit.size) _
+    (appendWitness_wf _ c h) w) ?_
+  simp only [Constraint.arithRel, Constraint.piF, selectOneC, toF_zero, toF_one, toF_R_sub_one]
+  constructor
+  · intro h; simp at h; linear_combination -h
+  · intro h; simp; linear_combination -h
+
+theorem componentSelectOne_val (bit value : Nat) (c : Composer) :
+    toF (((componentSelectOne bit value).run c).2.val c.wit.size) =
+      1 - toF (c.val bit) + toF (c.val bit) * toF (c.val value) := by
+  rw [componentSelectOne_snd]
+  have : ((appendGate (selectOneC bit value c.wit.size)).run
+        ((appendWitness (fadd (fsub 1 (c.val bit)) (fmul (c.val bit) (c.val value)))).run c).2).2.val
+          c.wit.size = (fadd (fsub 1 (c.val bit)) (fmul (c.val bit) (c.val value))) % R :=
+    appendWitness_val _ c
+  rw [this]; simp
+
+theorem componentSelectOne_honest_ext (bit value : Nat) (c : Composer) (hwf : WF c)
+    (hb : bit < c.wit.size) (hv : value < c.wit.size) {c'' : Composer}
+    (hext : Extends ((componentSelectOne bit value).run c).2 c'') :
+    ((componentSelectOne bit value).run c).2.rowsHoldW c''.val c.gates.size
+      ((componentSelectOne bit value).run c).2.gates.size := by
+  have hap := componentSelectOne_appends bit value c
+  have hex := hap.ext.trans hext
+  rw [componentSelectOne_rows_iff bit value c hwf,
+    hext.val_eq (by rw [hap.wit]; omega), componentSelectOne_val, hex.val_eq hb, hex.val_eq hv]
+
+theorem componentSelectOne_honest (bit value : Nat) (c : Composer) (hwf : WF c)
+    (hb : bit < c.wit.size) (hv : value < c.wit.size) :
+    ((componentSelectOne bit value).run c).2.rowsHoldW
+      ((componentSelectOne bit value).run c).2.val c.gates.size
+      ((componentSelectOne bit value).run c).2.gates.size :=
+  componentSelectOne_honest_ext bit value c hwf hb hv (Extends.refl _)
+
+/-! ### `component_select` : `bit · a + (1 − bit) · b` -/
+
+/-- state after the first gate (`bit·a`) of `component_select` -/
+def sel1 (bit a : Nat) (c : Composer) : Composer :=
+  ((gateMul { qm := 1, a := bit, b := a }).run c).2
+/-- state after the second gate (`1 − bit`) -/
+def sel2 (bit a : Nat) (c : Composer) : Composer :=
+  ((gateAdd { ql := R - 1, qc := 1, a := bit }).run (sel1 bit a c)).2
+/-- state after the third gate (`(1 − bit)·b`) -/
+def sel3 (bit a b : Nat) (c : Composer) : Composer :=
+  ((gateMul { qm := 1, a := c.wit.size + 1, b := b }).run (sel2 bit a c)).2
+/-- final state -/
+def sel4 (bit a b : Nat) (c : Composer) : Composer :=
+  ((gateAdd { ql := 1, qr := 1, a := c.wit.size + 2, b := c.wit.size }).run (sel3 bit a b c)).2
+
+theorem componentSelect_run (bit a b : Nat) (c : Composer) :
+    (componentSelect bit a b).run c = (c.wit.size + 3, sel4 bit a b c) := by
+  unfold componentSelect sel4 sel3 sel2 sel1
+  simp only [bind, StateT.bind, StateT.run, gateMul]
+  rw [gateAdd_apply]; simp only []
+  rw [gateAdd_apply]; simp only [gateAdd_wit_size]
+  rw [gateAdd_apply]; simp only [gateAdd_wit_size]
+  rw [gateAdd_apply]; simp only [gateAdd_wit_size]
+
+theorem componentSelect_fst (bit a b : Nat) (c : Composer) :
+    ((componentSelect bit a b).run c).1 = c.wit.size + 3 := by rw [componentSelect_run]
+
+theorem componentSelect_snd (bit a b : Nat) (c : Composer) :
+    ((componentSelect bit a b).run c).2 = sel4 bit a b c := by rw [componentSelect_run]
+
+theorem sel1_appends (bit a : Nat) (c : Composer) : Appends c (sel1 bit a c) 1 1 :=
+  gateAdd_appends _ c
+theorem sel2_appends (bit a : Nat) (c : Composer) : Appends (sel1 bit a c) (sel2 bit a c) 1 1 :=
+  gateAdd_appends _ _
+theorem sel3_appends (bit a b : Nat) (c : Composer) :
+    Appends (sel2 bit a c) (sel3 bit a b c) 1 1 := gateAdd_appends _ _
+theorem sel4_appends (bit a b : Nat) (c : Composer) :
+    Appends (sel3 bit a b c) (sel4 bit a b c) 1 1 := gateAdd_appends _ _
+
+theorem componentSelect_appends (bit a b : Nat) (c : Composer) :
+    Appends c ((componentSelect bit a b).run c).2 4 4 := by
+  rw [componentSelect_snd]
+  exact (((sel1_appends bit a c).trans (sel2_appends bit a c)).trans (sel3_appends bit a b c)).trans
+    (sel4_appends bit a b c)
+
+theorem componentSelect_extends (bit a b : Nat) (c : Composer) :
+    Extends c ((componentSelect bit a b).run c).2 := (componentSelect_appends bit a b c).ext
+
+theorem sel1_wf (bit a : Nat) (c : Composer) (h : WF c) : WF (sel1 bit a c) := gateAdd_wf _ c h
+theorem sel2_wf (bit a : Nat) (c : Composer) (h : WF c) : WF (sel2 bit a c) :=
+  gateAdd_wf _ _ (sel1_wf bit a c h)
+theorem sel3_wf (bit a b : Nat) (c : Composer) (h : WF c) : WF (sel3 bit a b c) :=
+  gateAdd_wf _ _ (sel2_wf bit a c h)
+
+theorem componentSelect_wf (bit a b : Nat) (c : Composer) (h : WF c) :
+    WF ((componentSelect bit a b).run c).2 := by
+  rw [componentSelect_snd]; exact gateAdd_wf _ _ (sel3_wf bit a b c h)
+
+/-- `component_select bit a b`: the four appended rows hold under `w` iff the four allocated
+    witnesses `n, n+1, n+2, n+3` (`n = c.wit.size`) carry `bit·a`, `1 − bit`, `(1 − bit)·b` and
+    their sum; the returned witness is `n+3`. -/
+theorem componentSelect_rows_iff (bit a b : Nat) (c : Composer) (h : WF c) (w : Nat → Nat) :
+    ((componentSelect bit a b).run c).2.rowsHoldW w c.gates.size
+        ((componentSelect bit a b).run c).2.gates.size ↔
+      (toF (w c.wit.size) = toF (w bit) * toF (w a) ∧
+       toF (w (c.wit.size + 1)) = 1 - toF (w bit) ∧
+       toF (w (c.wit.size + 2)) = toF (w (c.wit.size + 1)) * toF (w b) ∧
+       toF (w (c.wit.size + 3)) = toF (w (c.wit.size + 2)) + toF (w c.wit.size)) := by
+  rw [componentSelect_snd]
+  have A1 := sel1_appends bit a c
+  have A2 := sel2_appends bit a c
+  have A3 := sel3_appends bit a b c
+  have A4 := sel4_appends bit a b c
+  rw [((A1.trans A2).trans A3).rows_split A4 w, (A1.trans A2).rows_split A3 w, A1.rows_split A2 w]
+  have r1 : (sel1 bit a c).rowsHoldW w c.gates.size (sel1 bit a c).gates.size ↔ _ :=
+    gateAdd_rows_iff _ c h w
+  have r2 : (sel2 bit a c).rowsHoldW w (sel1 bit a c).gates.size (sel2 bit a c).gates.size ↔ _ :=
+    gateAdd_rows_iff _ _ (sel1_wf bit a c h) w
+  have r3 : (sel3 bit a b c).rowsHoldW w (sel2 bit a c).gates.size (sel3 bit a b c).gates.size ↔ _ :=
+    gateAdd_rows_iff _ _ (sel2_wf bit a c h) w
+  have r4 : (sel4 bit a b c).rowsHoldW w (sel3 bit a b c).gates.size (sel4 bit a b c).gates.size
+      ↔ _ := gateAdd_rows_iff _ _ (sel3_wf bit a b c h) w
+  have e1 : (sel1 bit a c).wit.size = c.wit.size + 1 := A1.wit
+  have e2 : (sel2 bit a c).wit.size = c.wit.size + 2 := by rw [A2.wit, e1]
+  have e3 : (sel3 bit a b c).wit.size = c.wit.size + 3 := by rw [A3.wit, e2]
+  rw [r1, r2, r3, r4, e1, e2, e3]
+  simp only [Constraint.evalF, Constraint.piF, toF_zero, toF_one, toF_R_sub_one]
+  simp only [and_assoc]
+  refine and_congr ?_ (and_congr ?_ (and_congr ?_ ?_))
+  · constructor <;> intro h <;> simp at h ⊢ <;> linear_combination h
+  · constructor <;> intro h <;> simp at h ⊢ <;> linear_combination h
+  · constructor <;> intro h <;> simp at h ⊢ <;> linear_combination h
+  · constructor <;> intro h <;> simp at h ⊢ <;> linear_combination h
+
+/-- consequence: the returned witness carries `bit·a + (1 − bit)·b` -/
+theorem componentSelect_out (bit a b : Nat) (c : Composer) (h : WF c) (w : Nat → Nat)
+    (hr : ((componentSelect bit a b).run c).2.rowsHoldW w c.gates.size
+        ((componentSelect bit a b).run c).2.gates.size) :
+    toF (w (c.wit.size + 3)) = toF (w bit) * toF (w a) + (1 - toF (w bit)) * toF (w b) := by
+  obtain ⟨h1, h2, h3, h4⟩ := (componentSelect_rows_iff bit a b c h w).mp hr
+  rw [h4, h3, h2, h1]; ring
+
+theorem componentSelect_honest_ext (bit a b : Nat) (c : Composer) (hwf : WF c)
+    (hbit : bit < c.wit.size) (ha : a < c.wit.size) (hb : b < c.wit.size) {c'' : Composer}
+    (hext : Extends ((componentSelect bit a b).run c).2 c'') :
+    ((componentSelect bit a b).run c).2.rowsHoldW c''.val c.gates.size
+      ((componentSelect bit a b).run c).2.gates.size := by
+  rw [componentSelect_snd] at hext ⊢
+  have A1 := sel1_appends bit a c
+  have A2 := sel2_appends bit a c
+  have A3 := sel3_appends bit a b c
+  have A4 := sel4_appends bit a b c
+  have e1 : (sel1 bit a c).wit.size = c.wit.size + 1 := A1.wit
+  have e2 : (sel2 bit a c).wit.size = c.wit.size + 2 := by rw [A2.wit, e1]
+  have e3 : (sel3 bit a b c).wit.size = c.wit.size + 3 := by rw [A3.wit, e2]
+  have x3 : Extends (sel3 bit a b c) c'' := A4.ext.trans hext
+  have x2 : Extends (sel2 bit a c) c'' := A3.ext.trans x3
+  have x1 : Extends (sel1 bit a c) c'' := A2.ext.trans x2
+  rw [((A1.trans A2).trans A3).rows_split A4, (A1.trans A2).rows_split A3, A1.rows_split A2]
+  refine ⟨⟨⟨?_, ?_⟩, ?_⟩, ?_⟩
+  · exact gateAdd_honest_ext _ c hwf (fun _ => rfl) hbit ha (by show 0 < _; omega) x1
+  · exact gateAdd_honest_ext _ _ (sel1_wf bit a c hwf) (fun _ => rfl) (by show bit < _; omega)
+      (by show 0 < _; omega) (by show 0 < _; omega) x2
+  · exact gateAdd_honest_ext _ _ (sel2_wf bit a c hwf) (fun _ => rfl)
+      (by show c.wit.size + 1 < _; omega) (by show b < _; omega) (by show 0 < _; omega) x3
+  · exact gateAdd_honest_ext _ _ (sel3_wf bit a b c hwf) (fun _ => rfl)
+      (by show c.wit.size + 2 < _; omega) (by show c.wit.size < _; omega) (by show 0 < _; omega)
+      hext
+
+theorem componentSelect_honest (bit a b : Nat) (c : Composer) (hwf : WF c)
+    (hbit : bit < c.wit.size) (ha : a < c.wit.size) (hb : b < c.wit.size) :
+    ((componentSelect bit a b).run c).2.rowsHoldW ((componentSelect bit a b).run c).2.val
+      c.gates.size ((componentSelect bit a b).run c).2.gates.size :=
+  componentSelect_honest_ext bit a b c hwf hbit ha hb (Extends.refl _)
+
+/-- the value the model stores in the returned witness -/
+theorem componentSelect_val (bit a b : Nat) (c : Composer) (hwf : WF c)
+    (hbit : bit < c.wit.size) (ha : a < c.wit.size) (hb : b < c.wit.size) :
+    toF (((componentSelect bit a b).run c).2.val (c.wit.size + 3)) =
+      toF (c.val bit) * toF (c.val a) + (1 - toF (c.val bit)) * toF (c.val b) := by
+  have h := componentSelect_out bit a b c hwf _ (componentSelect_honest bit a b c hwf hbit ha hb)
+  have hex := componentSelect_extends bit a b c
+  rw [hex.val_eq hbit, hex.val_eq ha, hex.val_eq hb] at h
+  exact h
+
+/-! ### `Composer::initialized()` -/
+
+theorem initialized_gates_size : initialized.gates.size = 4 := by decide +kernel
+theorem initialized_wit_size : initialized.wit.size = 6 := by decide +kernel
+theorem initialized_pis : initialized.pis = #[] := by decide +kernel
+theorem initialized_val_zero : initialized.val 0 = 0 := by decide +kernel
+theorem initialized_val_one : initialized.val 1 = 1 := by decide +kernel
+
+theorem initialized_wf : WF initialized := by
+  apply wf_of_wit
+  · decide +kernel
+  · intro i _
+    unfold piAt; rw [initialized_pis]; rfl
+
+theorem initialized_gate0 : initialized.gates[0]? =
+    some { ql := R - 1, qarith := 1 } := by decide +kernel
+theorem initialized_gate1 : initialized.gates[1]? =
+    some { ql := R - 1, qc := 1, qarith := 1, a := 1 } := by decide +kernel
+
+theorem initialized_honest : initialized.rowsHoldW initialized.val 0 4 := by
+  intro i _ hi
+  interval_cases i <;> decide +kernel
+
+theorem initialized_piAt (i : Nat) : initialized.piAt i = 0 := by
+  unfold piAt; rw [initialized_pis]; rfl
+
+theorem initialized_row0 (w : Nat → Nat) :
+    initialized.rowHoldsW w 0 = true ↔ toF (w 0) = 0 := by
+  unfold rowHoldsW rowValsW gateAt
+  rw [Array.getD_eq_getD_getElem?, initialized_gate0, initialized_piAt]
+  simp only [Option.getD_some]
+  rw [rowHolds_arith _ rfl rfl rfl rfl]
+  simp [arithF, toF_R_sub_one]
+
+theorem initialized_row1 (w : Nat → Nat) :
+    initialized.rowHoldsW w 1 = true ↔ toF (w 1) = 1 := by
+  unfold rowHoldsW rowValsW gateAt
+  rw [Array.getD_eq_getD_getElem?, initialized_gate1, initialized_piAt]
+  simp only [Option.getD_some]
+  rw [rowHolds_arith _ rfl rfl rfl rfl]
+  simp only [arithF, toF_R_sub_one, toF_zero, toF_one]
+  constructor <;> intro h <;> simp at h ⊢ <;> linear_combination -h
+
+theorem initialized_plain (i : Nat) : Gate.plain (initialized.gateAt i) := by
+  by_cases hi : i < 4
+  · interval_cases i <;> (unfold Gate.plain; decide +kernel)
+  · unfold gateAt
+    rw [Array.getD_eq_getD_getElem?, Array.getElem?_eq_none (by rw [initialized_gates_size]; omega)]
+    exact ⟨rfl, rfl, rfl, rfl⟩
+
+theorem initialized_base (w : Nat → Nat) (h : initialized.rowsHoldW w 0 2) :
+    toF (w 0) = 0 ∧ toF (w 1) = 1 :=
+  ⟨(initialized_row0 w).mp (h 0 (Nat.le_refl _) (by omega)),
+   (initialized_row1 w).mp (h 1 (by omega) (by omega))⟩
+
+theorem initialized_base_ext {c : Composer} (hext : Extends initialized c) (w : Nat → Nat)
+    (h : c.rowsHoldW w 0 2) : toF (w 0) = 0 ∧ toF (w 1) = 1 := by
+  apply initialized_base
+  rwa [hext.rowsHoldW_of_plain w (by rw [initialized_gates_size]; omega)
+    (fun i _ _ => initialized_plain i)] at h
 
 end Composer
 end Plonk
